@@ -18,8 +18,8 @@ Nat`, elements are taken modulo 256) and all initial accounts.
 State of the code (`/repo` after e3534dd, 4853513, 6b80d4b, 8349742, cf30e8c, cb2ce34, 835fdd2, 136eeb3): the nine sites
 the audit found open in the class reader, in `get_arguments_size` (1–8) and in the class writer's `if_helper` (9) are
 repaired; each former `_witness` theorem is now a regression theorem (`…_is_err` / `…_is_ok`).  No audited site is open
-(`open_sites`).  Not a panic and still there: the expansion of acyclic bootstrap-argument DAGs into trees
-(`dyn_expansion_witness`, bounded by `fanout ^ 16`).  The writer as a whole is C02's model: `Thm.C02.write_fails_cleanly`
+(`open_sites`).  The expansion of acyclic bootstrap-argument DAGs into trees (a copy per use, formerly `fanout ^ 16` nodes)
+is bounded since the budget `MAX_BOOTSTRAP_ARGUMENT_CONSTANTS`: `dyn_nodes_bounded`.  The writer as a whole is C02's model: `Thm.C02.write_fails_cleanly`
 (the code array is written or refused with an error for every instruction list).
 
 * Full strength (`no_panic_X`): Tiny v2, tiny-diff, Enigma, nests, the three descriptor parsers, `read_code`
@@ -169,7 +169,20 @@ theorem anno_nesting_is_err : (Anno.annoOp (Anno.nested 256)).run.1 = .err := by
 
 /-- resolving `Dynamic` constants never panics (former site 4) -/
 theorem no_panic_dyn (spec : Dyn.Bsms) (st : Acct) (s : Nat) : (Dyn.dynOp spec st).1 ≠ .panic s :=
-  (Dyn.resolve_spec (S := []) (Dyn.argsLe_sum spec) Dyn.maxDepth 0).panicsIn.not_panic st s
+  (Dyn.dynOp_spec (S := []) (Dyn.argsLe_sum spec)).panicsIn.not_panic st s
+
+/-- **the expansion of shared bootstrap arguments is bounded** (full strength, every pool, every sharing structure, every
+initial account): one resolution of a loadable constant builds at most `MAX_BOOTSTRAP_ARGUMENT_CONSTANTS = 65536`
+`Loadable` nodes — each `get_loadable_at_depth` call pays one unit of a budget that the top-level call sets up — and the
+largest single allocation request is the length of an argument list of the input. Before the repair a pool of `16·k`
+two-byte indices described `k ^ 16` nodes (`dyn_expansion_is_err` below ran out of memory) -/
+theorem dyn_nodes_bounded (spec : Dyn.Bsms) (st : Acct) (n : Nat) (h : (Dyn.dynOp spec st).1 = .ok n) :
+    n ≤ 65536 ∧ (st.alloc ≤ (spec.map List.length).sum → (Dyn.dynOp spec st).2.alloc ≤ (spec.map List.length).sum) := by
+  have hs := Dyn.dynOp_spec (S := []) (Dyn.argsLe_sum spec) st
+  refine ⟨?_, hs.1⟩
+  have h2 := hs.2
+  rw [h] at h2
+  exact h2
 
 /-- regression of site 4 (cb2ce34): a `Dynamic` constant that lists itself as bootstrap argument is an error (was:
 exhausts every stack) -/
@@ -182,9 +195,15 @@ theorem depth_bound_dyn :
     (Dyn.dynOp ((List.range 18).map fun i => if i + 1 < 18 then [Dyn.Arg.dyn (i + 1)] else [])).run.1 = .err := by
   decide +kernel
 
-/-- still open (not a panic): acyclic structures are expanded into trees: 7 constants (a binary DAG of depth 6) become
-127 `Loadable`s; with the depth limit the expansion is bounded by `fanout ^ 16` -/
-theorem dyn_expansion_witness : (Dyn.dynOp (Dyn.binDag 6 0)).run.1 = .ok 127 := by decide +kernel
+/-- sharing is still resolved by copying: 7 constants (a binary DAG of depth 6) become 127 `Loadable`s … -/
+theorem dyn_sharing_is_copied : (Dyn.dynOp (Dyn.binDag 6 0)).run.1 = .ok 127 := by decide +kernel
+
+/-- … but the copies are paid from the budget: three constants whose bootstrap methods list the next one 300 times
+(1 + 300 + 90000 nodes, a pool of about 1.3 KB) are an error, not 90301 nodes (regression of the expansion repair; with
+sixteen such levels the unrepaired reader asked for `300 ^ 16` nodes) -/
+theorem dyn_expansion_is_err :
+    (Dyn.dynOp [List.replicate 300 (Dyn.Arg.dyn 1), List.replicate 300 (Dyn.Arg.dyn 2), []]).run.1 = .err := by
+  decide +kernel
 
 /-! ## the writer on reader output -/
 
